@@ -228,6 +228,10 @@ def check(ix, rep):
             rep.ok('R-GRID', kf.module.rel, kf.qual, slot, '%d extracted influence interval forms, restricted to the grid, are the index window [%r, %r]; filler = fill = neutral of %s'
                    % (nchecked, lo, hi, rop), kf.node.lineno)
     rep.floor('bounded operators compared on the grid', nb, 4)
+    # a dense result that loses its first sample is undefined at grid point 0 (and wherever an enclosing operator reads it)
+    allf = list(mm.functions.values()) + [g for c in mm.classes.values() for g in c.methods.values()]
+    nfs = densesum.check_first_sample(ix, rep, allf, 'dense-offline')
+    rep.floor('compressing output loops', nfs, 6)
     # handlers hand the converted bounds to their kernels
     for nn in sorted(FRAGMENT_BOUNDED):
         meth, _ = dn.method_for([c for c in D.node_classes(ix) if c.name == nn][0], ix)
@@ -260,6 +264,15 @@ def check(ix, rep):
                     rep.fail('R-GRID', fdense.module.rel, '%s~%s' % (fdisc.qual, fdense.qual), slot, 'with %s the dense monitor uses %r as the %s bound, the discrete one %r samples of '
                              'period*U[period unit]/U[default unit]: not the same duration' % (case, r2.ret[idx], which, r1.ret[idx]), fdense.node.lineno)
     rep.floor('unit cases compared between the two transformers', nu, 8)
+    # a conversion that remembers its answers must forget them when the period changes (R-CACHE; no memo on today's tree)
+    from sa.rules import memo
+    if not memo.self_test():
+        raise AnalysisError('R-CACHE self-test: the memo idiom is not recognised')
+    for (mod_, cls_) in (('rtamt.semantics.discrete_time_interpreter', 'DiscreteTimeInterpreter'), ('rtamt.semantics.dense_time_interpreter', 'DenseTimeInterpreter')):
+        k_ = ix.find_class(mod_, cls_)
+        f_ = k_.methods.get('time_unit_transformer') if k_ is not None else None
+        if f_ is not None:
+            memo.check_method(ix, rep, k_, f_, 'converter')
     explanation = __doc__.split('\n\n', 1)[1].strip().replace('\n', ' ')
     assumptions = ['the time-stamp of sample k is k * period, expressed in the default unit of the specification (premise of the property)',
                    'hand lemma: nesting -- on grid-aligned inputs every break-point of a dense result is T[k] +- a bound, again a grid point, so the argument composes',
